@@ -29,7 +29,7 @@ try:
         r = subprocess.run("cd /repo && /venv/bin/python -m pytest -q -p no:cacheprovider -x 2>&1 | tail -2", shell=True, capture_output=True, text=True)
         print("REPO TESTS:", r.stdout.strip().splitlines()[-1] if r.stdout.strip() else r.stderr[-200:])
     for c in [c for c in a.checks.split(",") if c]:
-        r = subprocess.run(["/verif/check", c, "--tier", a.tier], capture_output=True, text=True)
+        r = subprocess.run(["/verif/check", c, "--tier", a.tier], capture_output=True, text=True, env=dict(os.environ, NSSMC_EVIDENCE_DIR="/verif/scratch/mut_evidence"))  # never clobber committed evidence with a mutated tree's
         lines = r.stdout.strip().splitlines()
         viol = [l for l in lines if l.startswith("VIOLATION")]
         cl = sorted(set(l.split()[0] for l in lines if l.strip().startswith("clause=")))
